@@ -82,3 +82,16 @@ func VerifStreamReaders(st *ServerStream) (readers int, active int) {
 	defer st.mutex.RUnlock()
 	return len(st.readers), len(st.activeUnicastReaders)
 }
+
+// VerifStreamMulticast reports the number of multicast readers of a stream and how many of
+// its medias currently own a multicast writer (sockets and routines).
+func VerifStreamMulticast(st *ServerStream) (readers int, writers int) {
+	st.mutex.RLock()
+	defer st.mutex.RUnlock()
+	for _, m := range st.medias {
+		if m.multicastWriter != nil {
+			writers++
+		}
+	}
+	return st.multicastReaderCount, writers
+}
